@@ -348,3 +348,7 @@ CHECKS["C17"]["harnesses"].append(H_TRANSFER)
 CHECKS["C12"]["harnesses"].append(H_CAND)
 CHECKS["C10"]["harnesses"].append(H_INSTALL_F)
 CHECKS["C10"]["explanation"] += " Also: installSnapshot's durable snapshot record (what a restart reads back) carries the request's (LastLogIndex, LastLogTerm)."
+
+H_AE_CONFIG = {"fn": "vh_ae_config", "what": "appendEntries carrying / truncating configuration entries: latest and committed configuration follow the log (truncation falls back to committed, received entry becomes latest, commit index commits it)",
+               "bounds": "follower log of 2 entries with an uncommitted configuration entry, 1 request entry (Command or Configuration, duplicate or conflicting)", "covers": ["aeconfig.duplicate", "aeconfig.replaced-by-config", "aeconfig.replaced-by-command", "aeconfig.latest-committed"]}
+CHECKS["C07"]["harnesses"].append(H_AE_CONFIG)
